@@ -30,12 +30,28 @@ class Receive(Explorer):
     """Paths of HippoClientProtocol.datagram_received with the facts: parsed (datagram decoded), acked,
     collected (acks consumed), dup (track_reliable said "already seen"), dispatched sites."""
 
-    def __init__(self, fi: FuncInfo):
+    def __init__(self, fi: FuncInfo, repo=None):
         super().__init__()
         self.fi = fi
+        self.repo = repo
+        self.stack: List[FuncInfo] = [fi]
         self.bad_dispatch: Dict[str, Tuple[ast.AST, str]] = {}
         self.seen_dispatch: Dict[str, ast.AST] = {}
         self.uncollected_dispatch: Dict[str, ast.AST] = {}
+        self.dispatch_fn: Dict[str, FuncInfo] = {}
+
+    def _helpers(self, node) -> List[Tuple[ast.Call, FuncInfo]]:
+        """Calls of same-class helper methods inside node (their bodies are explored in line)."""
+        if self.repo is None:
+            return []
+        from .c05 import resolve_method_call
+        out = []
+        for c in calls(node, into_defs=False):
+            h = resolve_method_call(self.repo, self.stack[-1], c)
+            if h is not None and h.cls is not None and self.fi.cls is not None and h.cls.name == self.fi.cls.name \
+                    and h not in self.stack and len(self.stack) < 4:
+                out.append((c, h))
+        return out
 
     @staticmethod
     def init_state() -> St:
@@ -53,6 +69,7 @@ class Receive(Explorer):
             elif _is_dispatch(c):
                 k = norm(c)
                 self.seen_dispatch[k] = c
+                self.dispatch_fn[k] = self.stack[-1]
                 if st.data["dup"]:
                     self.bad_dispatch[k] = (c, "reached on a path on which track_reliable reported an already-seen packet")
                 if not st.data["collected"]:
@@ -88,6 +105,26 @@ class Receive(Explorer):
         # simple statement
         self._effects(s, st)
         self.simple(s, st)
+        hs = self._helpers(s)
+        if hs:
+            states = [st]
+            outs_ = []
+            for c, h in hs:
+                nxt = []
+                self.stack.append(h)
+                try:
+                    for cur in states:
+                        for kind, node, s2 in self.explore(h.node.body, cur):
+                            if kind in ("fall", "return"):
+                                nxt.append(s2)
+                            elif kind == "raise":
+                                outs_.append((kind, node, s2))
+                            else:
+                                raise AnalysisError(f"{h.qual}: {kind} escapes the helper")
+                finally:
+                    self.stack.pop()
+                states = nxt
+            return outs_ + [("fall", None, x) for x in states]
         bare = [c for c in calls(s, into_defs=False) if call_attr(c) == "track_reliable"]
         if bare and not (isinstance(s, ast.Assign) and len(s.targets) == 1 and isinstance(s.targets[0], ast.Name)
                          and s.value is bare[0]):
@@ -122,7 +159,7 @@ class Receive(Explorer):
 
 def receive_paths(ctx):
     dr = ctx.repo.fn("HippoClientProtocol.datagram_received", CLIENT)
-    ex = Receive(dr)
+    ex = Receive(dr, ctx.repo)
     outs = ex.explore(dr.node.body, Receive.init_state())
     return dr, ex, outs
 
@@ -201,22 +238,28 @@ def r1(ctx, dr, ex, outs, msg):
 def r2(ctx, dr, ex, outs, msg):
     ctx.rule("C19.R2", "every dispatch honours the dedupe verdict: no message_handler.handle(message) is reachable once "
                        "track_reliable reported the packet as already seen; new and unreliable packets reach every handler")
-    sites = [c for c in calls(dr.node, into_defs=False) if _is_dispatch(c)]
+    from .common import class_methods_reachable
+    fns = [f for f in class_methods_reachable(ctx.repo, dr, depth=3) if f.cls is not None and dr.cls is not None
+           and f.cls.name == dr.cls.name]
+    sites = [(f, c) for f in fns for c in calls(f.node, into_defs=False) if _is_dispatch(c)]
     ctx.floor("C19.R2", "dispatch sites (session and region handler)", len(sites), 2)
-    tr = find_calls(dr.node, "track_reliable", into_defs=False)
+    tr = [c for f in fns for c in find_calls(f.node, "track_reliable", into_defs=False)]
     ctx.ob("C19.R2", "datagram_received consults track_reliable for reliable packets", len(tr) >= 1, dr.where,
            "no resend suppression at all: every retransmission is dispatched again")
     for c in tr:
         ctx.ob("C19.R2", "track_reliable is asked about the received packet's id",
-               bool(c.args) and ap(c.args[0]) == f"{msg}.packet_id", ctx.w(dr, c))
-    for c in sites:
+               bool(c.args) and (ap(c.args[0]) or "").endswith(".packet_id"), ctx.w(dr, c))
+    for f, c in sites:
         k = norm(c)
         bad = ex.bad_dispatch.get(k)
-        ctx.ob("C19.R2", f"datagram_received: {k} never runs for an already-seen reliable packet", bad is None, ctx.w(dr, c),
+        ctx.ob("C19.R2", f"datagram_received: {k} never runs for an already-seen reliable packet", bad is None, ctx.w(f, c),
                bad[1] + ": a retransmitted reliable packet is delivered to these subscribers again" if bad else "")
-        ctx.ob("C19.R2", f"datagram_received: {k} receives the decoded message", bool(c.args) and ap(c.args[0]) == msg, ctx.w(dr, c))
+        # the dispatched object is the decoded message (a local of datagram_received, or the helper parameter it is passed as)
+        a0 = ap(c.args[0]) if c.args else None
+        okm = a0 == msg if f == dr else (a0 in [x.arg for x in f.node.args.args])
+        ctx.ob("C19.R2", f"datagram_received: {k} receives the decoded message", bool(okm), ctx.w(f, c))
     # completeness: a packet that is not a duplicate reaches every dispatch site
-    all_keys = {norm(c) for c in sites}
+    all_keys = {norm(c) for f, c in sites}
     for kind, node, st in outs:
         if kind == "raise" or not st.data["parsed"] or st.data["dup"] or st.data["exc"]:
             continue
@@ -361,8 +404,13 @@ def r3(ctx, dr, ex, outs, msg):
             and (ap(v.value.value) or "").endswith("unacked_reliable")
         samekey = False
         if okf and ins:
-            k1 = norm(v.value.slice).replace(m + ".", "M.")
-            samekey = any(norm(st.target.slice).replace(sm + ".", "M.") == k1 for st in ins)
+            from .c05 import entry_key
+            k1 = entry_key(repo, sr, v.value.slice)
+            k1 = tuple(x.replace(m + ".", "M.", 1) for x in k1) if k1 else None
+            for st in ins:
+                k2 = entry_key(repo, send, st.target.slice)
+                if k1 is not None and k2 is not None and tuple(x.replace(sm + ".", "M.", 1) for x in k2) == k1:
+                    samekey = True
         ctx.ob("C19.R3", "Circuit.send_reliable returns the `completed` future of the entry send() registered", okf and samekey,
                ctx.w(sr, r), f"returns {norm(v)}")
     cfg = CFG(sr.node)
@@ -547,6 +595,62 @@ def r6(ctx):
     ctx.floor("C19.R6", "loops over Event.subscribers", n, 2)
 
 
+def r7(ctx):
+    repo = ctx.repo
+    ctx.rule("C19.R7", "a registered notifier is never replaced: a plain store into MessageHandler.handlers is "
+                       "dominated by a test that the key is absent (`not in` / `is None`), not by the truthiness of the "
+                       "Event (which defines __len__: an Event without subscribers is falsy)")
+    mh = repo.cls("MessageHandler", "hippolyzer/lib/base/message/message_handler.py")
+    ev = repo.cls("Event", "hippolyzer/lib/base/events.py")
+    falsy_when_empty = any(m in ev.methods for m in ("__len__", "__bool__"))
+    n = 0
+    for f in mh.methods.values():
+        for st in stores(f.node, into_defs=True):
+            if st.path != "self.handlers":
+                continue
+            n += 1
+            if st.kind in ("setitem", "augsetitem"):
+                key = st.target.slice
+                absent, via_truth = False, False
+                for e, pol in facts(st.node, f.node):
+                    if isinstance(e, ast.Compare) and len(e.ops) == 1 and ap(e.comparators[0]) == "self.handlers" \
+                            and ast.dump(e.left) == ast.dump(key):
+                        if (isinstance(e.ops[0], ast.NotIn) and pol) or (isinstance(e.ops[0], ast.In) and not pol):
+                            absent = True
+                    nt = is_none_test(e)
+                    name = nt[0] if nt else ap(e)
+                    if name and "." not in name:
+                        def is_get(v):
+                            return isinstance(v, ast.Call) and ap(v.func) == "self.handlers.get" and v.args and \
+                                ast.dump(v.args[0]) == ast.dump(key) and \
+                                (len(v.args) == 1 or (isinstance(v.args[1], ast.Constant) and v.args[1].value is None))
+                        assigns = [a_ for a_ in stores(f.node, into_defs=False) if a_.path == name and a_.kind == "assign"]
+                        gets = [a_ for a_ in assigns if a_.value is not None and is_get(a_.value)]
+                        # re-binding the name inside the guarded branch (`x = self.handlers[k] = Event()`) is fine
+                        others_inside = all(path_fact(a_.node, name, f.node) is not None for a_ in assigns if a_ not in gets)
+                        from_table = len(gets) == 1 and others_inside
+                        if from_table and nt and ((nt[1] and pol) or (not nt[1] and not pol)):
+                            absent = True
+                        elif from_table and not nt and not pol:
+                            via_truth = True
+                if via_truth and not falsy_when_empty:
+                    absent = True
+                ctx.ob("C19.R7", f"{f.qual}: store `{norm(st.target)}` happens only when the key has no notifier yet", absent,
+                       ctx.w(f, st.node),
+                       ("guarded by the truthiness of the looked-up Event: an Event whose subscribers all left is falsy, "
+                        "so it is replaced and whoever still holds the old Event subscribes to an orphan"
+                        if via_truth else "an existing notifier (and its subscribers) can be overwritten"))
+            elif st.kind == "mutcall" and st.method == "setdefault":
+                ctx.ob("C19.R7", f"{f.qual}: notifiers are created with setdefault", True, ctx.w(f, st.node))
+            elif st.kind == "assign" and f.name == "__init__":
+                ctx.ob("C19.R7", f"{f.qual}: handlers table constructed", True, ctx.w(f, st.node))
+            else:
+                kind = st.kind + (f":{st.method}" if st.method else "")
+                ctx.ob("C19.R7", f"{f.qual}: {kind} on the handlers table keeps registered notifiers", False, ctx.w(f, st.node),
+                       "registered notifiers are removed / replaced wholesale: their subscribers stop receiving messages")
+    ctx.floor("C19.R7", "writers of MessageHandler.handlers", n, 2)
+
+
 def run(ctx):
     dr, ex, outs = receive_paths(ctx)
     msgs = [ap(st.target) for st in stores(dr.node, into_defs=False) if st.kind == "assign" and isinstance(st.value, ast.Call)
@@ -559,5 +663,6 @@ def run(ctx):
     r4(ctx)
     r5(ctx)
     r6(ctx)
+    r7(ctx)
     ctx.assume("delivery counts over arrival sequences are not decided statically")
     ctx.assume("message_handler.handle() does not raise for subscriber errors (Event.notify guards subscribers, C07.R2)")
